@@ -339,15 +339,15 @@ Section MixC.
       discriminate Hno.
   Qed.
 
-  Theorem mixC_main : forall g fuel pub cn rt r sels at_ tv top nested out pub' k l N kv fc,
+  Theorem mixC_main : forall g fuel pub cn rt r sels at_ tv top out pub' k l N kv fc,
     fuel <= F -> parse_type_def fuel C S frs pub cn r sels at_ [] tv = Ok (out, pub', false) ->
-    sels_okM g true C S frs top nested rt r sels = true -> tv_ok nested rt tv ->
+    sels_okM g true C S frs top at_ rt r sels = true -> tv_ok rt tv ->
     (at_ = true -> has_typename sels = true) -> table_ok cls out ->
     collect k S frs rt false sels = Some l -> incl l N -> ambC N rt kv fc ->
     class_goodC g cn kv N l.
   Proof.
     induction g as [|g IH];
-      intros fuel pub cn rt r sels at_ tv top nested out pub' k l N kv fc HF Hp Hok Htv Hat Htab Hcol HlN Hamb;
+      intros fuel pub cn rt r sels at_ tv top out pub' k l N kv fc HF Hp Hok Htv Hat Htab Hcol HlN Hamb;
       [discriminate Hok|].
     destruct (sels_okM_inv _ _ _ _ _ _ _ _ _ _ Hok) as [g' [fns [ms [Eg [Hfl [_ [Hfields [Hmix Hreach]]]]]]]].
     inversion Eg; subst g'. clear Eg.
@@ -374,7 +374,7 @@ Section MixC.
       destruct (Hmixn m Hm) as [fm' [k' [lm [Elf' [Hcm Hilm]]]]].
       unfold lookup_frag in Elf'. rewrite Elf in Elf'. inversion Elf'; subst fm'.
       exists fm, k', lm. split; [reflexivity|]. split; [exact Hcm|]. split; [exact Hilm|].
-      eapply (IH F [] (pascal_s m) rt (fr_on fm) (fr_sel fm) false None false false outm pubm k' lm N kv fc);
+      eapply (IH F [] (pascal_s m) rt (fr_on fm) (fr_sel fm) false None false outm pubm k' lm N kv fc);
         eauto.
       - left; reflexivity.
       - discriminate.
@@ -386,13 +386,13 @@ Section MixC.
       - exists []. intros j Hj. apply mro_basemodel. lia.
       - destruct (HB m (Hkept m Hm)) as [fm [km [lm [_ [_ [_ [pb [Hpb _]]]]]]]]. exists pb. exact Hpb. }
     (* the own fields *)
-    pose proof (fields_run_pf _ _ _ _ _ _ _ _ _ _ _ _ _ _ Hrun) as FP.
+    pose proof (fields_run_pf _ _ _ _ _ _ _ _ _ _ _ _ _ _ _ Hrun) as FP.
     assert (HownA : forall pf, In pf pfl ->
                p_name pf = py_field_name C (field_key_of pf) /\ In (field_key_of pf) (map n_key N) /\
                (forall n' v, n' >= F + Datatypes.S g + 1 -> jlookup (field_key_of pf) kv = Some v ->
                              covers n' cls (p_ann pf) v = true)).
     { intros pf Hpf. destruct (Forall2_In_r _ _ _ _ FP Hpf) as [f [Hf [ctx Hfp]]].
-      destruct (field_pf_inv _ _ _ _ _ _ _ _ _ _ Hfp) as [t [a0 [il [_ [_ Epf]]]]].
+      destruct (field_pf_inv _ _ _ _ _ _ _ _ _ _ _ Hfp) as [t [a0 [il [_ [_ Epf]]]]].
       assert (Ek : field_key_of pf = field_key f) by (subst pf; apply mk_pfield_key).
       split; [rewrite Ek; subst pf; reflexivity|]. split.
       { rewrite Ek. change (field_key f) with (n_key (node_of_fnode false f)). apply in_map, HlN, Hown, Hf. }
@@ -400,7 +400,7 @@ Section MixC.
       assert (HFF : Forall2 (field_facts C (covers (Datatypes.S n1) cls) kv) fns pfl).
       { eapply (level_facts C S frs fuel' g true cls (covers (Datatypes.S n1) cls) (fun j => jwf j = true)
                             class_covers (covers n1 cls) (mro_fields n1 cls)
-                            (sels_okM g true C S frs true true) (sels_okM_ok_inv g true C S frs))
+                            (sels_okM g true C S frs true) (sels_okM_ok_inv g true C S frs))
           with (K := map n_key N) (k := fc);
           try eassumption; try reflexivity; auto.
         - intros ll Hl' x Hx. simpl in Hl'. rewrite forallb_forall in Hl'. apply Hl', Hx.
@@ -418,7 +418,7 @@ Section MixC.
           simpl in P6. apply andb_true_iff in P6 as [Q1 Q2]. rewrite forallb_forall in Q1, Q2.
           simpl in P7. apply andb_true_iff in P7 as [Hnd2 Hmem2]. rewrite forallb_forall in Hmem2.
           eapply (class_goodC_covers g cn2 kv2 l2 l2).
-          + eapply (IH fuel' pb cn2 rt2 r2 sels2 at2 (Some tvs) true true out2 pub2 fc2 l2 l2 kv2 fc2); eauto.
+          + eapply (IH fuel' pb cn2 rt2 r2 sels2 at2 (Some tvs) true out2 pub2 fc2 l2 l2 kv2 fc2); eauto.
             * lia.
             * right. eauto.
             * apply incl_refl.
@@ -467,7 +467,7 @@ Section MixC.
     intros x Hx. destruct (flattenM_collect_conv _ _ _ _ _ _ _ _ _ _ _ Hfl Hcol x Hx)
       as [[fn [Hfn Ex]] | [m [fm [km [lm [Hm [Elf [Hcm Hxm]]]]]]]].
     - destruct (Forall2_In_l _ _ _ _ FP Hfn) as [pf [Hpf [ctx Hfp]]].
-      destruct (field_pf_inv _ _ _ _ _ _ _ _ _ _ Hfp) as [t [a0 [il [_ [_ Epf]]]]].
+      destruct (field_pf_inv _ _ _ _ _ _ _ _ _ _ _ Hfp) as [t [a0 [il [_ [_ Epf]]]]].
       apply in_map_iff. exists pf. split; [| apply Hownp; exact Hpf].
       subst pf x. rewrite mk_pfield_key. reflexivity.
     - (* reachability of the mixin *)
@@ -522,7 +522,7 @@ Proof.
   destruct n as [|n']; [lia|].
   change (class_covers (covers n' cls) (mro_fields n' cls (pascal_s name)) (JObj kv) = true).
   eapply (class_goodC_covers C F cls HF1 g (pascal_s name) kv l l).
-  - eapply (mixC_main C S frs F cls Hnd Hnb G2 HF1 g F [] (pascal_s name) root root sels false None true false
+  - eapply (mixC_main C S frs F cls Hnd Hnb G2 HF1 g F [] (pascal_s name) root root sels false None true
                       own pub' k l l kv k); eauto.
     + left; reflexivity.
     + discriminate.
